@@ -18,8 +18,35 @@ sexp sexp_bignum_fxmul (sexp ctx, sexp d, sexp a, sexp_uint_t b, int offset);
 sexp_uint_t sexp_bignum_fxdiv (sexp ctx, sexp a, sexp_uint_t b, int offset);
 sexp sexp_bignum_mul (sexp ctx, sexp dst, sexp a, sexp b);
 sexp sexp_bignum_normalize (sexp a);
+sexp sexp_bignum_expt (sexp ctx, sexp a, sexp b);
+sexp sexp_write_bignum (sexp ctx, sexp a, sexp out, sexp_uint_t base);
+sexp sexp_read_number (sexp ctx, sexp in, int base, int exactp);
+sexp sexp_bignum_sqrt (sexp ctx, sexp a, sexp* rem_out);
+sexp sexp_ratio_add (sexp ctx, sexp a, sexp b);
+sexp sexp_ratio_mul (sexp ctx, sexp a, sexp b);
+sexp sexp_ratio_div (sexp ctx, sexp a, sexp b);
+sexp sexp_ratio_compare (sexp ctx, sexp a, sexp b);
+sexp sexp_ratio_normalize (sexp ctx, sexp rat, sexp in);
+sexp sexp_make_ratio (sexp ctx, sexp num, sexp den);
 
 static sexp ctx;
+
+/* operands of the pure functions must come back untouched: snapshot before, compare after */
+typedef struct { int isbig; int sign; sexp_uint_t n; sexp_uint_t w[4100]; } snap_t;
+static snap_t snaps[4]; static sexp snapobj[4]; static int nsnap;
+static void snap(snap_t *s, sexp x) {
+  s->isbig = (x && sexp_bignump(x));
+  if (!s->isbig) return;
+  s->sign = sexp_bignum_sign(x); s->n = sexp_bignum_length(x);
+  if (s->n > 4096) s->n = 4096;
+  memcpy(s->w, sexp_bignum_data(x), s->n * sizeof(sexp_uint_t));
+}
+static int same(snap_t *s, sexp x) {
+  if (!s->isbig) return 1;
+  if (!sexp_bignump(x) || sexp_bignum_sign(x) != s->sign) return 0;
+  if (sexp_bignum_length(x) < s->n) return 0;
+  return memcmp(s->w, sexp_bignum_data(x), s->n * sizeof(sexp_uint_t)) == 0;
+}
 
 static sexp mkbig(sexp ctx, const char *sign, char *ws) {
   sexp_uint_t vals[4096]; int n = 0; char *p = ws;
@@ -32,6 +59,7 @@ static sexp mkbig(sexp ctx, const char *sign, char *ws) {
   sexp r = sexp_make_bignum(ctx, n);
   for (int i = 0; i < n; i++) sexp_bignum_data(r)[i] = vals[i];
   sexp_bignum_sign(r) = (sign && sign[0] == '-') ? -1 : 1;
+  if (nsnap < 4) { snapobj[nsnap] = r; snap(&snaps[nsnap++], r); }
   return r;
 }
 
@@ -61,22 +89,33 @@ static void prnum(sexp x) {
   else printf("ERR not-a-number");
 }
 
+static void prrat(sexp x) {
+  if (sexp_ratiop(x)) { printf("R "); prnum(sexp_ratio_numerator(x)); printf(" "); prnum(sexp_ratio_denominator(x)); }
+  else prnum(x);
+}
+
 static void prz(long v) { if (v < 0) printf("-%lx", -v); else printf("%lx", v); }
 
 int main(int argc, char **argv) {
-  char line[200000];
+  char line[200000]; int inplace = 0;
+  setvbuf(stdout, NULL, _IOLBF, 0);   /* a request that hangs must not hide the answers before it */
   sexp_scheme_init();
   ctx = sexp_make_eval_context(NULL, NULL, NULL, 0, 0);
-  sexp_gc_var5(a, b, r, vmadd, vmsub);
-  sexp_gc_preserve5(ctx, a, b, r, vmadd, vmsub);
+  sexp_gc_var7(a, b, r, vmadd, vmsub, vmquo, vmrem);
+  sexp_gc_var2(ra, rb);
+  sexp_gc_preserve7(ctx, a, b, r, vmadd, vmsub, vmquo, vmrem);
+  sexp_gc_preserve2(ctx, ra, rb);
   sexp_load_standard_env(ctx, NULL, SEXP_SEVEN);
   vmadd = sexp_eval_string(ctx, "(lambda (a b) (+ a b))", -1, NULL);
   vmsub = sexp_eval_string(ctx, "(lambda (a b) (- a b))", -1, NULL);
+  vmquo = sexp_eval_string(ctx, "(lambda (a b) (quotient a b))", -1, NULL);
+  vmrem = sexp_eval_string(ctx, "(lambda (a b) (remainder a b))", -1, NULL);
   if (!sexp_procedurep(vmadd) || !sexp_procedurep(vmsub)) { fprintf(stderr, "cannot compile vm probes\n"); return 3; }
   while (fgets(line, sizeof line, stdin)) {
     char *f[8]; int nf = 0; char *tok = strtok(line, " \n");
     while (tok && nf < 8) { f[nf++] = tok; tok = strtok(NULL, " \n"); }
     if (nf == 0) { printf("\n"); continue; }
+    a = b = SEXP_FALSE; inplace = 0; nsnap = 0;
     if (!strcmp(f[0], "add_digits") && nf == 3) {
       a = mkbig(ctx, "1", f[1]); b = mkbig(ctx, "1", f[2]);
       r = sexp_bignum_add_digits(ctx, NULL, a, b); prwords(r);
@@ -93,15 +132,18 @@ int main(int argc, char **argv) {
       a = mkbig(ctx, f[1], f[2]); b = mkbig(ctx, f[3], f[4]);
       r = sexp_bignum_sub(ctx, NULL, a, b); prz(sexp_bignum_sign(r)); printf(" "); prwords(r);
     } else if (!strcmp(f[0], "fxadd") && nf == 3) {
+      inplace = 1;
       a = mkbig(ctx, "1", f[1]);
       r = sexp_bignum_fxadd(ctx, a, strtoull(f[2], NULL, 16)); prwords(r);
     } else if (!strcmp(f[0], "fxsub") && nf == 4) {
+      inplace = 1;
       a = mkbig(ctx, f[1], f[2]);
       r = sexp_bignum_fxsub(ctx, a, strtoull(f[3], NULL, 16)); prz(sexp_bignum_sign(r)); printf(" "); prwords(r);
     } else if (!strcmp(f[0], "fxmul") && nf == 4) {
       a = mkbig(ctx, "1", f[1]);
       r = sexp_bignum_fxmul(ctx, NULL, a, strtoull(f[2], NULL, 16), atoi(f[3])); prwords(r);
     } else if (!strcmp(f[0], "fxdiv") && nf == 4) {
+      inplace = 1;
       a = mkbig(ctx, "1", f[1]);
       sexp_uint_t rr = sexp_bignum_fxdiv(ctx, a, strtoull(f[2], NULL, 16), atoi(f[3]));
       prwords(a); printf(" %lx", (unsigned long)rr);
@@ -131,12 +173,55 @@ int main(int argc, char **argv) {
       a = mknum(ctx, f[1]); b = mknum(ctx, f[2]);
       r = sexp_list2(ctx, a, b);
       r = sexp_apply(ctx, f[0][3] == 'a' ? vmadd : vmsub, r); prnum(r);
+    } else if ((!strcmp(f[0], "num_quotient") || !strcmp(f[0], "num_remainder")) && nf == 3) {
+      a = mknum(ctx, f[1]); b = mknum(ctx, f[2]);
+      r = f[0][4] == 'q' ? sexp_quotient(ctx, a, b) : sexp_remainder(ctx, a, b);
+      prnum(r);
+    } else if ((!strcmp(f[0], "vm_quotient") || !strcmp(f[0], "vm_remainder")) && nf == 3) {
+      a = mknum(ctx, f[1]); b = mknum(ctx, f[2]);
+      r = sexp_list2(ctx, a, b);
+      r = sexp_apply(ctx, f[0][3] == 'q' ? vmquo : vmrem, r); prnum(r);
+    } else if (!strcmp(f[0], "bignum_expt") && nf == 4) {
+      a = mkbig(ctx, f[1], f[2]);
+      r = sexp_bignum_expt(ctx, a, sexp_make_fixnum(atol(f[3]))); prnum(r);
+    } else if (!strcmp(f[0], "write_bignum") && nf == 3) {
+      a = mkbig(ctx, "1", f[1]);
+      b = sexp_open_output_string(ctx);
+      sexp_write_bignum(ctx, a, b, strtoul(f[2], NULL, 10));
+      r = sexp_get_output_string(ctx, b);
+      if (sexp_stringp(r)) printf("%s", sexp_string_data(r)); else printf("ERR no-string");
+    } else if (!strcmp(f[0], "read_number") && nf == 3) {
+      a = sexp_c_string(ctx, f[2], -1);
+      b = sexp_open_input_string(ctx, a);
+      r = sexp_read_number(ctx, b, atoi(f[1]), 0); prnum(r);
+    } else if (!strcmp(f[0], "num_compare") && nf == 3) {
+      a = mknum(ctx, f[1]); b = mknum(ctx, f[2]);
+      r = sexp_compare(ctx, a, b);
+      if (!sexp_fixnump(r)) printf("ERR not-a-fixnum"); else prz(sexp_unbox_fixnum(r) > 0 ? 1 : sexp_unbox_fixnum(r) < 0 ? -1 : 0);
+    } else if (!strcmp(f[0], "bignum_sqrt") && nf == 2) {
+      a = mkbig(ctx, "1", f[1]);
+      { sexp rem = SEXP_VOID; r = sexp_bignum_sqrt(ctx, a, &rem); prnum(r); printf(" "); prnum(rem); }
+    } else if (!strcmp(f[0], "ratio_normalize") && nf == 3) {
+      a = mknum(ctx, f[1]); b = mknum(ctx, f[2]);
+      r = sexp_make_ratio(ctx, a, b);
+      r = sexp_ratio_normalize(ctx, r, SEXP_FALSE); prrat(r);
+    } else if ((!strcmp(f[0], "ratio_add") || !strcmp(f[0], "ratio_mul") || !strcmp(f[0], "ratio_div") || !strcmp(f[0], "ratio_compare")) && nf == 5) {
+      a = mknum(ctx, f[1]); b = mknum(ctx, f[2]); ra = sexp_make_ratio(ctx, a, b);
+      a = mknum(ctx, f[3]); b = mknum(ctx, f[4]); rb = sexp_make_ratio(ctx, a, b);
+      if (f[0][6] == 'c') {
+        r = sexp_ratio_compare(ctx, ra, rb);
+        if (!sexp_fixnump(r)) printf("ERR not-a-fixnum"); else prz(sexp_unbox_fixnum(r) > 0 ? 1 : sexp_unbox_fixnum(r) < 0 ? -1 : 0);
+      } else {
+        r = f[0][6] == 'a' ? sexp_ratio_add(ctx, ra, rb) : f[0][6] == 'm' ? sexp_ratio_mul(ctx, ra, rb) : sexp_ratio_div(ctx, ra, rb);
+        prrat(r);
+      }
     } else {
       printf("ERR unknown request");
     }
+    if (!inplace) { int k; for (k = 0; k < nsnap; k++) if (!same(&snaps[k], snapobj[k])) printf(" MUTATED-operand-%d", k); }
     printf("\n");
   }
-  sexp_gc_release5(ctx);
+  sexp_gc_release7(ctx);
   sexp_destroy_context(ctx);
   return 0;
 }
